@@ -273,3 +273,31 @@ TEXT['C20'].update(
     level_text='Mixed: the gating that decides which rows are (re)computed and the key-set algebra of the keyed join are proved; row-level values of the join and the output '
                'assembly are bounded, so the claim is "other".',
     level_note=TEXT['C20']['level_note'] + ' Callee contracts used as facts in join: d1*d2 and d1/d2 (C02), d1+d2 (C01), sort (C07).')
+
+# ---- after the constructor / relabel / as_primitive / is_iterable / len0 contracts
+PROPS['C07'].update(explanation=PROPS['C07']['explanation'].replace(
+    'NaN above every finite number; _has_nan', 'NaN above every finite number; as_primitive / _as_primitive (cmp\'s normalisation step) from the real AST: None, bool, int, float, str and tz-naive '
+    'datetime come back as the very same object, a tuple / list as a container of the same class and length with - by structural induction - the very same leaves (loop(list, tuple) decorator by the '
+    'contracts of wrapper.__call__ (C18), loops.wrapped / loops._wrapped (C19), dt(datetime) by C04, all regenerated in this check); _has_nan').replace(
+    'Bounded only: cmp on dicts and numpy scalars, explicit value orders', 'Bounded only: cmp on dicts and numpy scalars, as_primitive on numpy / date / Enum values, explicit value orders'))
+TEXT['C07'].update(level_note=TEXT['C07']['level_note'].replace('as_primitive is the identity on the universe;',
+    'int(x) / float(x) return an object of exact type int / float itself; model note: cmp\'s contract keeps the original handle of a tuple / list although as_primitive hands it a structural copy with the same leaves;'))
+PROPS['C16'].update(explanation=PROPS['C16']['explanation'].replace('(counted as proved, 404 obligations)', '(counted as proved)').replace(
+    'every unique=True fast path justified);', 'every unique=True fast path justified); the constructor ulist.__init__ from its real body: ulist(xs) = DEDUP(xs) (no duplicates, same members, first-occurrence order, '
+    'at most len(xs) items) through its set / index / sorted pipeline, ulist(xs, unique=True) holds the items of xs, ulist() is empty;').replace(
+    'attribute access, relabel, keys, copy)', 'attribute access, relabel (the module-level helper relabel() for seven shapes of *args - none, suffix, prefix, other string, callable, dict, two names - and executed at its '
+    'call site in dictattr.relabel: new label of every key, explicit relabels win, values untouched and original order when no two keys collide), keys, copy)').replace(
+    'ValueError only when >= 2 callables remain and none is independent.', 'ValueError only when >= 2 callables remain and none is independent; Dict.apply from its body (the keywords handed to '
+    'kwargs_support(f) are {**defaults, **self}).').replace(
+    'Bounded only: the dedup pipeline of the ulist constructor, relabel() helper, Dict.__add__', 'Bounded only: relabel with a single list of names or >= 3 names, Dict.__add__'))
+TEXT['C16'].update(
+    level_text='Mixed: the operators, the constructor, relabel, apply and the evaluation loop are proved for all lists / mappings / dependency graphs given axioms for set iteration, list.index and sorted(); '
+               'the order-independence conclusion is argued - "other".',
+    level_note='Axioms (validated against CPython on every run): set iteration, list.index, sorted() of (int key, item) pairs with pairwise different keys, list.__init__, zip dict comprehension, dict.__init__ for a dict '
+               'subclass without its own constructor. Uninterpreted: getargs, string concatenation, the callable handed to relabel. Preconditions: new labels are strings; element == is an equivalence consistent '
+               'with hash (no NaN). Excluded: tuple paths, dotted keys, _-prefixed attributes. Known finding: Dict + Dict-subclass.')
+PROPS['C19'].update(explanation=PROPS['C19']['explanation'].replace('(counted as proved, 157 obligations)', '(counted as proved)').replace(
+    'and their frames;', 'and their frames; loops.wrapped called with positional arguments hands (args[0], args[1:], kwargs) to _wrapped;').replace(
+    'lens and zipper exact;', 'lens and zipper exact; is_iterable and len0 from their real bodies (True exactly for list / tuple / range-like / dict; len(x) for sized containers, 0 for None, strings, scalars and zip objects);'))
+TEXT['C19'].update(level_note=TEXT['C19']['level_note'].replace('Assumed contracts: len0, is_iterable.',
+    'Universe: a value tagged OTHER is a string or a scalar that is neither Iterable nor sized (sets, bytes, generators outside the datatype); getattr(x, "__len__", d)() axiom; loops.wrapped with keywords only is bounded.'))
